@@ -54,10 +54,10 @@ class MultiTrackLargeVocabularyNotelikeTokeniser:
             self.ppqn = PPQN
         if self.step_sizes is None:
             self.step_sizes = get_default_step_sizes(lower_bound_shift=1)
-        self.step_sizes.sort()
+        self.step_sizes = sorted(set(self.step_sizes))
         if self.note_values is None:
             self.note_values = get_default_note_values()
-        self.note_values.sort()
+        self.note_values = sorted(set(self.note_values))
 
         self.velocity_bins = get_velocity_bins(velocity_bins=velocity_bins)
 
